@@ -97,6 +97,43 @@ func (o objRef) String() string {
 	return s
 }
 
+// refAtom judges whether an atom establishes the needed fact about ref.
+type refAtom func(a *an.Atom, ref objRef) bool
+
+// minLenAtom returns a judge for "len(ref) >= n".
+func minLenAtom(n int64) refAtom {
+	return func(a *an.Atom, ref objRef) bool {
+		if a == nil {
+			return false
+		}
+		lenOf := func(v ssa.Value) bool {
+			call, ok := v.(*ssa.Call)
+			if !ok || !isBuiltin(call, "len") {
+				return false
+			}
+			r, ok := fieldRef(call.Call.Args[0])
+			return ok && r.same(ref)
+		}
+		switch a.Op {
+		case "==":
+			for _, side := range [][2]ssa.Value{{a.LV, a.RV}, {a.RV, a.LV}} {
+				if k, ok := constIntOf(side[1]); ok && lenOf(side[0]) && k >= n {
+					return true
+				}
+			}
+		case "<=":
+			if k, ok := constIntOf(a.LV); ok && lenOf(a.RV) && k >= n {
+				return true
+			}
+		case "<":
+			if k, ok := constIntOf(a.LV); ok && lenOf(a.RV) && k >= n-1 {
+				return true
+			}
+		}
+		return false
+	}
+}
+
 // nonNilAtomFor: atom establishes that ref (object or field) is non-nil.
 func nonNilAtomFor(a *an.Atom, ref objRef) bool {
 	if a == nil || a.Op != "!=" {
@@ -122,7 +159,7 @@ func nonNilAtomFor(a *an.Atom, ref objRef) bool {
 
 // forallGuardLoops returns full-range loops over slice parameter p of fn in which an iteration continues only past
 // [p[i](.path) != nil], directly or through a per-element helper whose nil-error returns imply it.
-func (c *Ctx) forallGuardLoops(fn *ssa.Function, p *ssa.Parameter, T *types.Named, path string) []*Loop {
+func (c *Ctx) forallGuardLoops(fn *ssa.Function, p *ssa.Parameter, T *types.Named, path string, judge refAtom) []*Loop {
 	var out []*Loop
 	for _, l := range FindLoops(fn) {
 		if !l.FullRange || l.BoundLen != ssa.Value(p) {
@@ -133,7 +170,7 @@ func (c *Ctx) forallGuardLoops(fn *ssa.Function, p *ssa.Parameter, T *types.Name
 		hdr := l.Header
 		x, _ := an.Cut(an.CutQuery{From: an.Point{Block: l.BodyFirst, Idx: 0}, Target: func(i ssa.Instruction) bool { return i == hdr.Instrs[0] },
 			AcceptEdge: func(b *ssa.BasicBlock, i int, a *an.Atom) bool {
-				if nonNilAtomFor(a, ref) {
+				if judge(a, ref) {
 					return true
 				}
 				// helper(elem) err == nil
@@ -152,7 +189,7 @@ func (c *Ctx) forallGuardLoops(fn *ssa.Function, p *ssa.Parameter, T *types.Name
 						}
 						for ai, arg := range call.Call.Args {
 							if r, ok := objOf(arg); ok && r.same(objRef{T: T, Param: p, Elem: true, Idx: l.Idx}) && ai < len(cal.Params) {
-								if c.helperImpliesNonNil(cal, cal.Params[ai], T, path) {
+								if c.helperImpliesNonNil(cal, cal.Params[ai], T, path, judge) {
 									return true
 								}
 							}
@@ -169,7 +206,7 @@ func (c *Ctx) forallGuardLoops(fn *ssa.Function, p *ssa.Parameter, T *types.Name
 }
 
 // helperImpliesNonNil: every nil-error return of helper h is cut by [param(.path) != nil].
-func (c *Ctx) helperImpliesNonNil(h *ssa.Function, prm *ssa.Parameter, T *types.Named, path string) bool {
+func (c *Ctx) helperImpliesNonNil(h *ssa.Function, prm *ssa.Parameter, T *types.Named, path string, judge refAtom) bool {
 	k := errResultIndex(h)
 	if k < 0 {
 		return false
@@ -183,7 +220,7 @@ func (c *Ctx) helperImpliesNonNil(h *ssa.Function, prm *ssa.Parameter, T *types.
 		any = true
 		target := ssa.Instruction(ret)
 		if x, _ := an.Cut(an.CutQuery{From: an.Entry(h), Target: func(i ssa.Instruction) bool { return i == target },
-			AcceptEdge: func(b *ssa.BasicBlock, i int, a *an.Atom) bool { return nonNilAtomFor(a, ref) }}); x != nil {
+			AcceptEdge: func(b *ssa.BasicBlock, i int, a *an.Atom) bool { return judge(a, ref) }}); x != nil {
 			return false
 		}
 	}
@@ -191,12 +228,12 @@ func (c *Ctx) helperImpliesNonNil(h *ssa.Function, prm *ssa.Parameter, T *types.
 }
 
 // sliceHelperImpliesNonNil: helper h taking the whole list returns a nil error only after a forall-guard loop for path.
-func (c *Ctx) sliceHelperImpliesNonNil(h *ssa.Function, prm *ssa.Parameter, T *types.Named, path string) bool {
+func (c *Ctx) sliceHelperImpliesNonNil(h *ssa.Function, prm *ssa.Parameter, T *types.Named, path string, judge refAtom) bool {
 	k := errResultIndex(h)
 	if k < 0 {
 		return false
 	}
-	loops := c.forallGuardLoops(h, prm, T, path)
+	loops := c.forallGuardLoops(h, prm, T, path, judge)
 	if len(loops) == 0 {
 		return false
 	}
@@ -221,11 +258,11 @@ func (c *Ctx) sliceHelperImpliesNonNil(h *ssa.Function, prm *ssa.Parameter, T *t
 }
 
 // established: is ref non-nil on every path from fn's entry to site? (local tests, forall loops, validation helpers)
-func (c *Ctx) established(fn *ssa.Function, site ssa.Instruction, ref objRef) bool {
+func (c *Ctx) established(fn *ssa.Function, site ssa.Instruction, ref objRef, judge refAtom) bool {
 	// direct local test
 	if x, _ := an.Cut(an.CutQuery{From: an.Entry(fn), Target: func(i ssa.Instruction) bool { return i == site },
 		AcceptEdge: func(b *ssa.BasicBlock, i int, a *an.Atom) bool {
-			if nonNilAtomFor(a, ref) {
+			if judge(a, ref) {
 				return true
 			}
 			// per-object helper: helper(obj) err == nil
@@ -240,7 +277,7 @@ func (c *Ctx) established(fn *ssa.Function, site ssa.Instruction, ref objRef) bo
 							continue
 						}
 						for ai, arg := range call.Call.Args {
-							if r, ok := objOf(arg); ok && r.same(objRef{T: ref.T, Param: ref.Param}) && ai < len(cal.Params) && c.helperImpliesNonNil(cal, cal.Params[ai], ref.T, ref.Path) {
+							if r, ok := objOf(arg); ok && r.same(objRef{T: ref.T, Param: ref.Param}) && ai < len(cal.Params) && c.helperImpliesNonNil(cal, cal.Params[ai], ref.T, ref.Path, judge) {
 								return true
 							}
 						}
@@ -255,7 +292,7 @@ func (c *Ctx) established(fn *ssa.Function, site ssa.Instruction, ref objRef) bo
 		return false
 	}
 	// forall loop over the list, completed before the site
-	for _, l := range c.forallGuardLoops(fn, ref.Param, ref.T, ref.Path) {
+	for _, l := range c.forallGuardLoops(fn, ref.Param, ref.T, ref.Path, judge) {
 		hdr, exitB := l.Header, l.Exit
 		if x, _ := an.Cut(an.CutQuery{From: an.Entry(fn), Target: func(i ssa.Instruction) bool { return i == site },
 			AcceptEdge: func(b *ssa.BasicBlock, i int, a *an.Atom) bool { return b == hdr && b.Succs[i] == exitB }}); x == nil {
@@ -278,7 +315,7 @@ func (c *Ctx) established(fn *ssa.Function, site ssa.Instruction, ref objRef) bo
 						continue
 					}
 					for ai, arg := range call.Call.Args {
-						if sliceRootExact(arg) == ssa.Value(ref.Param) && ai < len(cal.Params) && c.sliceHelperImpliesNonNil(cal, cal.Params[ai], ref.T, ref.Path) {
+						if sliceRootExact(arg) == ssa.Value(ref.Param) && ai < len(cal.Params) && c.sliceHelperImpliesNonNil(cal, cal.Params[ai], ref.T, ref.Path, judge) {
 							return true
 						}
 					}
@@ -293,10 +330,77 @@ func (c *Ctx) established(fn *ssa.Function, site ssa.Instruction, ref objRef) bo
 
 // need is one unguarded use of a request-data field.
 type need struct {
-	Ref  objRef
-	Site ssa.Instruction
-	Fn   *ssa.Function
-	What string
+	Ref    objRef
+	Site   ssa.Instruction
+	Fn     *ssa.Function
+	What   string
+	MinLen int64 // > 0: the field must have at least this many bytes (array conversion); 0: non-nil suffices
+}
+
+func (n need) judge() refAtom {
+	if n.MinLen > 0 {
+		return minLenAtom(n.MinLen)
+	}
+	return nonNilAtomFor
+}
+
+func (n need) key() string {
+	if n.MinLen > 0 {
+		return n.Ref.Path + fmt.Sprintf("#len>=%d", n.MinLen)
+	}
+	return n.Ref.Path
+}
+
+// arrayConvNeeds: byte-slice parameters of fn that are converted to an array (panics when shorter) without a local length test.
+func arrayConvNeeds(fn *ssa.Function) map[int]int64 {
+	out := map[int]int64{}
+	for _, b := range fn.Blocks {
+		for _, ins := range b.Instrs {
+			sp, ok := ins.(*ssa.SliceToArrayPointer)
+			if !ok {
+				continue
+			}
+			p, ok := sp.X.(*ssa.Parameter)
+			if !ok {
+				continue
+			}
+			at, ok := sp.Type().(*types.Pointer).Elem().Underlying().(*types.Array)
+			if !ok {
+				continue
+			}
+			// local guard len(p) >= N ?
+			target := ssa.Instruction(sp)
+			if x, _ := an.Cut(an.CutQuery{From: an.Entry(fn), Target: func(i ssa.Instruction) bool { return i == target },
+				AcceptEdge: func(b *ssa.BasicBlock, i int, a *an.Atom) bool {
+					if a == nil {
+						return false
+					}
+					isLen := func(v ssa.Value) bool {
+						call, ok := v.(*ssa.Call)
+						return ok && isBuiltin(call, "len") && call.Call.Args[0] == ssa.Value(p)
+					}
+					if a.Op == "==" {
+						for _, side := range [][2]ssa.Value{{a.LV, a.RV}, {a.RV, a.LV}} {
+							if k, ok := constIntOf(side[1]); ok && isLen(side[0]) && k >= at.Len() {
+								return true
+							}
+						}
+					}
+					if k, ok := constIntOf(a.LV); ok && isLen(a.RV) && ((a.Op == "<=" && k >= at.Len()) || (a.Op == "<" && k >= at.Len()-1)) {
+						return true
+					}
+					return false
+				}}); x == nil {
+				continue
+			}
+			for i, pp := range fn.Params {
+				if pp == p {
+					out[i] = at.Len()
+				}
+			}
+		}
+	}
+	return out
 }
 
 // usesIn lists dereferences / constant slicings of request-data objects and their pointer/slice fields in fn (own body only),
@@ -312,12 +416,18 @@ func usesIn(fn *ssa.Function, inScope func(ssa.Instruction) bool) []need {
 			case *ssa.FieldAddr:
 				// deref of the object itself
 				if o, ok := objOf(x.X); ok {
-					out = append(out, need{o, ins, fn, "field access through the request data pointer"})
+					out = append(out, need{Ref: o, Site: ins, Fn: fn, What: "field access through the request data pointer"})
 					continue
 				}
 				// deref of a pointer field
 				if r, ok := fieldRef(x.X); ok {
-					out = append(out, need{r, ins, fn, "field access through " + r.String()})
+					out = append(out, need{Ref: r, Site: ins, Fn: fn, What: "field access through " + r.String()})
+				}
+			case *ssa.SliceToArrayPointer:
+				if r, ok := fieldRef(x.X); ok {
+					if at, ok := x.Type().(*types.Pointer).Elem().Underlying().(*types.Array); ok {
+						out = append(out, need{Ref: r, Site: ins, Fn: fn, What: fmt.Sprintf("conversion of %s to a %d-byte array (panics when shorter)", r.String(), at.Len()), MinLen: at.Len()})
+					}
 				}
 			case *ssa.Slice:
 				if x.High == nil {
@@ -327,7 +437,7 @@ func usesIn(fn *ssa.Function, inScope func(ssa.Instruction) bool) []need {
 					continue
 				}
 				if r, ok := fieldRef(x.X); ok {
-					out = append(out, need{r, ins, fn, "constant-bound slicing of " + r.String()})
+					out = append(out, need{Ref: r, Site: ins, Fn: fn, What: "constant-bound slicing of " + r.String()})
 				}
 			}
 		}
@@ -348,7 +458,7 @@ func (c *Ctx) unguardedNeeds(fn *ssa.Function, depth int) []need {
 	c.memo[key] = []need{}
 	var out []need
 	for _, u := range usesIn(fn, nil) {
-		if !c.established(fn, u.Site, u.Ref) {
+		if !c.established(fn, u.Site, u.Ref, u.judge()) {
 			out = append(out, u)
 		}
 	}
@@ -358,6 +468,18 @@ func (c *Ctx) unguardedNeeds(fn *ssa.Function, depth int) []need {
 		return cal != nil && prog.InModule(cal) && cal.Blocks != nil && !prog.IsTestish(prog.PkgPathOf(cal))
 	}) {
 		cal := ci.Common().StaticCallee()
+		// byte-slice helpers that convert their argument to an array
+		for ai, n := range arrayConvNeeds(cal) {
+			if ai >= len(ci.Common().Args) {
+				continue
+			}
+			if r, ok := fieldRef(ci.Common().Args[ai]); ok {
+				nd := need{Ref: r, Site: ci.(ssa.Instruction), Fn: fn, What: fmt.Sprintf("conversion of %s to a %d-byte array in %s (panics when shorter)", r.String(), n, Fn(cal)), MinLen: n}
+				if !c.established(fn, nd.Site, nd.Ref, nd.judge()) {
+					out = append(out, nd)
+				}
+			}
+		}
 		for ai, arg := range ci.Common().Args {
 			o, ok := objOf(arg)
 			if !ok || ai >= len(cal.Params) {
@@ -369,8 +491,9 @@ func (c *Ctx) unguardedNeeds(fn *ssa.Function, depth int) []need {
 				}
 				ref := o
 				ref.Path = nd.Ref.Path
-				if !c.established(fn, ci.(ssa.Instruction), ref) {
-					out = append(out, need{ref, nd.Site, nd.Fn, nd.What})
+				n2 := need{Ref: ref, Site: nd.Site, Fn: nd.Fn, What: nd.What, MinLen: nd.MinLen}
+				if !c.established(fn, ci.(ssa.Instruction), ref, n2.judge()) {
+					out = append(out, n2)
 				}
 			}
 		}
@@ -423,7 +546,7 @@ func (c *Ctx) ValidateBeforeUse(prop string) {
 		for _, m := range methodsFor[name] {
 			for _, nd := range c.unguardedNeeds(m, 0) {
 				if nd.Ref.T == T {
-					needPaths[nd.Ref.Path] = nd
+					needPaths[nd.key()] = nd
 				}
 			}
 		}
@@ -448,11 +571,11 @@ func (c *Ctx) ValidateBeforeUse(prop string) {
 				if u.Ref.T != T || u.Ref.Param != dataP {
 					continue
 				}
-				if f == E && c.established(E, u.Site, u.Ref) {
+				if f == E && c.established(E, u.Site, u.Ref, u.judge()) {
 					continue
 				}
-				if _, dup := needPaths[u.Ref.Path]; !dup {
-					needPaths[u.Ref.Path] = u
+				if _, dup := needPaths[u.key()]; !dup {
+					needPaths[u.key()] = u
 				}
 			}
 		}
@@ -465,32 +588,35 @@ func (c *Ctx) ValidateBeforeUse(prop string) {
 		for _, p := range paths {
 			total++
 			nd := needPaths[p]
-			ref := objRef{T: T, Param: dataP, Elem: batch, Path: p}
+			ref := objRef{T: T, Param: dataP, Elem: batch, Path: nd.Ref.Path}
 			label := T.Obj().Name()
-			if p != "" {
-				label += "." + p
+			if nd.Ref.Path != "" {
+				label += "." + nd.Ref.Path
+			}
+			if nd.MinLen > 0 {
+				label += fmt.Sprintf(" (at least %d bytes)", nd.MinLen)
 			}
 			ok := false
 			how := ""
 			if !batch {
-				if c.established(E, run.(ssa.Instruction), ref) {
+				if c.established(E, run.(ssa.Instruction), ref, nd.judge()) {
 					ok, how = true, "dominating test in the service"
 				}
 			} else {
 				// any index: use a forall guard before RunRules
 				probe := ref
 				probe.Idx = nil
-				if c.establishedForall(E, run.(ssa.Instruction), probe) {
+				if c.establishedForall(E, run.(ssa.Instruction), probe, nd.judge()) {
 					ok, how = true, "validated for every position in the service before the rules run"
 				}
 			}
-			if !ok && c.byConstruction(E, dataP, T, p, batch) {
+			if !ok && nd.MinLen == 0 && c.byConstruction(E, dataP, T, nd.Ref.Path, batch) {
 				ok, how = true, "non-nil by construction in every handler"
 			}
 			if ok {
 				c.R.OK(rule, Fn(E)+":"+label, c.Pos(run), label+" (needed by "+Fn(nd.Fn)+": "+nd.What+") is established: "+how)
 			} else {
-				c.R.Fail(rule, Fn(E)+":"+label, c.Pos(nd.Site), label+" is dereferenced or sliced without a guard ("+nd.What+" in "+Fn(nd.Fn)+") but nothing between the wire and that point guarantees it is present: a request omitting it crashes the daemon", "a test of "+label+" in the service before RunRules, or a value that is non-nil by construction in every handler", nil)
+				c.R.Fail(rule, Fn(E)+":"+label, c.Pos(nd.Site), label+" is dereferenced or sliced without a guard ("+nd.What+" in "+Fn(nd.Fn)+") but nothing between the wire and that point guarantees it is present: a request omitting it crashes the daemon", "a test of "+label+" in the service (or handler) before RunRules, or a value that is non-nil by construction in every handler", nil)
 			}
 		}
 	}
@@ -498,8 +624,8 @@ func (c *Ctx) ValidateBeforeUse(prop string) {
 }
 
 // establishedForall: ref (an element field, index-agnostic) holds for every position on every path from entry to site.
-func (c *Ctx) establishedForall(fn *ssa.Function, site ssa.Instruction, ref objRef) bool {
-	for _, l := range c.forallGuardLoops(fn, ref.Param, ref.T, ref.Path) {
+func (c *Ctx) establishedForall(fn *ssa.Function, site ssa.Instruction, ref objRef, judge refAtom) bool {
+	for _, l := range c.forallGuardLoops(fn, ref.Param, ref.T, ref.Path, judge) {
 		hdr, exitB := l.Header, l.Exit
 		if x, _ := an.Cut(an.CutQuery{From: an.Entry(fn), Target: func(i ssa.Instruction) bool { return i == site },
 			AcceptEdge: func(b *ssa.BasicBlock, i int, a *an.Atom) bool { return b == hdr && b.Succs[i] == exitB }}); x == nil {
@@ -521,7 +647,7 @@ func (c *Ctx) establishedForall(fn *ssa.Function, site ssa.Instruction, ref objR
 						continue
 					}
 					for ai, arg := range call.Call.Args {
-						if sliceRootExact(arg) == ssa.Value(ref.Param) && ai < len(cal.Params) && c.sliceHelperImpliesNonNil(cal, cal.Params[ai], ref.T, ref.Path) {
+						if sliceRootExact(arg) == ssa.Value(ref.Param) && ai < len(cal.Params) && c.sliceHelperImpliesNonNil(cal, cal.Params[ai], ref.T, ref.Path, judge) {
 							return true
 						}
 					}
